@@ -303,6 +303,28 @@ func TestClean(t *testing.T) {
 					}
 				}
 			}
+			if c.Chance("refusedResign", 1, 4) {
+				// history: the publisher tries to sign the same object once more with a signer
+				// the library must refuse (its signing device fails, or its cert-url is not
+				// acceptable); the object stays what it was: signed, verifiable, writable
+				bad := l.Signer()
+				if c.Bool("refusedResign.algorithmFails") {
+					bad.Algorithm = failingAlg{}
+				} else {
+					bad.CertUrl, _ = url.Parse("http://cert.example/plain-http.cbor")
+				}
+				var rerr2 error
+				c.Guard("Exchange.AddSignatureHeader", func() { rerr2 = pub.AddSignatureHeader(bad) })
+				if rerr2 != nil {
+					if c.Oracle("C02") && pub.SignatureHeaderValue != l.SigHeader {
+						c.Violation("refused-call-changed-the-exchange", "Exchange.AddSignatureHeader", "a refused signing attempt (%v) replaced the exchange's Signature header (%d -> %d bytes)", rerr2, len(l.SigHeader), len(pub.SignatureHeaderValue))
+					}
+					c.Probe("a second signing attempt was refused")
+				} else {
+					// (accepted after all: the object now carries another, equally valid signature)
+					pub.SignatureHeaderValue = l.SigHeader
+				}
+			}
 			for _, tm := range instants(c, l) {
 				for i, e := range []*signedexchange.Exchange{pub, rd} {
 					v := verify(c, e, tm, net)
@@ -331,6 +353,10 @@ func TestClean(t *testing.T) {
 		})
 	})
 }
+
+type failingAlg struct{}
+
+func (failingAlg) Sign(m []byte) ([]byte, error) { return nil, errors.New("sim: signing device failed") }
 
 // caseCollision: a header map whose keys differ only in letter case. The library
 // may refuse it; whatever it agrees to sign and write must read back and verify,
@@ -404,8 +430,9 @@ func checkReadBack(c *core.Ctx, rd *signedexchange.Exchange, l *gen.LSXG, site s
 	if rd.RequestURI != l.URL {
 		c.Violation("readback", site, "URL %q, wrote %q", rd.RequestURI, l.URL)
 	}
-	if rd.RequestMethod != l.Method {
-		c.Violation("readback", site, "method %q, wrote %q", rd.RequestMethod, l.Method)
+	if wantMethod := map[bool]string{true: "GET", false: l.Method}[l.Version == "1b3"]; rd.RequestMethod != wantMethod {
+		// (1b3 has no method on the wire: a 1b3 file reads back as GET)
+		c.Violation("readback", site, "method %q, wrote %q", rd.RequestMethod, wantMethod)
 	}
 	if rd.ResponseStatus != l.Status {
 		c.Violation("readback", site, "status %d, wrote %d", rd.ResponseStatus, l.Status)
@@ -790,7 +817,7 @@ func tamper(c *core.Ctx, w *world, l *gen.LSXG) (*signedexchange.Exchange, strin
 		return readIt(o.File), "misdirected"
 	case "certnet":
 		e := readIt(l.File)
-		op := c.PickStr("certnet.op", "unreachable", "foreign-chain", "corrupt-chain", "truncated-chain", "chain-of-same-host-other-key", "garbage-chain", "empty-chain", "forged-by-chain-member", "odd-key-chain")
+		op := c.PickStr("certnet.op", "unreachable", "foreign-chain", "corrupt-chain", "truncated-chain", "chain-of-same-host-other-key", "garbage-chain", "empty-chain", "forged-by-chain-member", "odd-key-chain", "forged-with-inline-chain")
 		if e != nil && c.Chance("certnet.twoSignatures", 1, 3) {
 			// the header lists the signature twice: both name the same cert-url, which is
 			// fetched (and fails, or not) once per signature
@@ -805,6 +832,25 @@ func tamper(c *core.Ctx, w *world, l *gen.LSXG) (*signedexchange.Exchange, strin
 			odd := fixtures.OddCerts[c.Pick("certnet.odd", len(fixtures.OddCerts))]
 			w.net.blobs[l.CertURL] = gen.ChainBytesOf([][]byte{odd.DER, l.Leaf.CADER}, []byte("ocsp-odd"))
 			c.Fault("certnet-odd-key-chain")
+		case "forged-with-inline-chain":
+			// another key holder signs altered content for the victim's URL and ships its own
+			// chain inside the (unsigned) cert-url parameter as a data: URL; the client's
+			// certificate fetcher knows nothing of it
+			other := fixtures.Leaves[c.Pick("certnet.forger", len(fixtures.Leaves))]
+			if other == l.Leaf {
+				other = fixtures.ByName("d-p384")
+				if other == l.Leaf {
+					other = fixtures.ByName("a-p256")
+				}
+			}
+			f := *l
+			f.Leaf, f.SignerObj = other, nil
+			f.Payload = append([]byte("forged:"), l.Payload...)
+			f.CertURL = "data:application/cert-chain+cbor;base64," + base64.StdEncoding.EncodeToString(gen.ChainBytes(other, []byte("ocsp-"+other.Name)))
+			if _, err := f.Sign(); err == nil {
+				c.Fault("certnet-inline-chain-in-cert-url")
+				return readIt(f.File), "certnet-" + op
+			}
 		case "forged-by-chain-member":
 			// another key holder signs altered content for the victim's URL and gets the
 			// certificate server to hand out [victim's certificate, forger's certificate, CA]:
@@ -1362,6 +1408,57 @@ func TestConcurrentPublishers(t *testing.T) {
 			}
 			c.Outcome("nt:done")
 			c.Sig("%s", sched)
+		})
+	})
+}
+
+// TestScale: sizes at which implementations keep thresholds (caps, chunk sizes,
+// pre-allocation limits): payloads of 1 MiB, 16 MiB and a little more, through
+// the whole publisher -> file -> client path, then with one byte of the LAST
+// record flipped in the file (which must be noticed: nothing behind a cap may
+// go unread). Few runs, each large.
+func TestScale(t *testing.T) {
+	rapid.Check(t, func(t *rapid.T) {
+		core.Run(t, "sxg/scale", func(c *core.Ctx) {
+			l := gen.DrawSXG(c, "sxg", 1)
+			n := c.PickInt("scale.len", 1<<20, 1<<20+1, 1<<24-1, 1<<24, 1<<24+1, 1<<24+4096)
+			l.Payload = make([]byte, n)
+			core.FillPattern(l.Payload, c.U64("scale.pat", 0, ^uint64(0)))
+			l.RS = c.PickInt("scale.rs", 16384, 4096, 16384)
+			c.Event("%s", l.Describe())
+			if _, err := l.Sign(); err != nil {
+				c.Violation("sign-error", "publisher", "library refused a valid exchange: %v", err)
+			}
+			net := newCertNet(c)
+			tm := time.Unix(l.Date, 0)
+			rd, rerr, pi, _ := readFile(c, l.File, core.ReaderPlan{ErrAt: -1})
+			if pi != nil || rerr != nil {
+				c.Violation("read-error", "ReadExchange/scale", "reader rejected the writer's output: %v", rerr)
+			}
+			v := verify(c, rd, tm, net)
+			if c.Oracle("C02", "C01") {
+				if v.pi != nil || !v.ok {
+					c.Violation("verify-failed", "Exchange.Verify/scale", "honest %d-byte payload rejected", n)
+				}
+				if !bytes.Equal(v.payload, l.Payload) {
+					c.Violation("verify-payload", "Exchange.Verify/scale", "returned payload differs from the original (%d vs %d bytes)", len(v.payload), len(l.Payload))
+				}
+			}
+			// storage fault in the very last record
+			bad := append([]byte(nil), l.File...)
+			bad[len(bad)-1-c.Int("scale.flipBack", 0, 100)] ^= 0x40
+			c.Fault("storage-bitflip-in-last-record")
+			rd2, rerr2, _, _ := readFile(c, bad, core.ReaderPlan{ErrAt: -1})
+			if rerr2 == nil && rd2 != nil {
+				v2 := verify(c, rd2, tm, net)
+				if v2.ok && c.Oracle("C01") {
+					w := &world{c: c, net: net, pubs: []*gen.LSXG{l}}
+					judgeAccept(c, w, rd2, v2.payload, tm, "bit flip in the last record of a large payload")
+				}
+			}
+			c.SimTime(1)
+			c.Outcome("nt:ok")
+			c.Sig("scale/%s/%d", l.Version, n)
 		})
 	})
 }
